@@ -171,6 +171,68 @@ theorem parse_error_position_table (pf : Bytes → Option UInt64) (input : Bytes
     · exact Or.inr ⟨htx, i, hi, by rw [← hp, he], hnb, hb⟩
     · exact Or.inl (by rw [← hp, he])
 
+/-- row 3 in terms of the INPUT: the Text token is the piece `input[s .. it.pos)`, the reported
+    position lies inside it, the byte there is not a space / tab / CR / LF, and every byte of the
+    token in front of it is one — the error stands at the first visible character of the stray text -/
+theorem stray_text_error_at_first_visible (input : Bytes) (is : List Item) (it : Item) (pos : Nat)
+    (hl : Lex.lexAll input false = .items is) (hm : it ∈ is) (htx : it.typ = .tText)
+    (hne : it.pos ≠ pos) (hat : Lemmas.ParserSafe.ErrAt it pos) :
+    ∃ s, s ≤ pos ∧ pos < it.pos ∧ it.pos ≤ input.length ∧ it.val = (input.drop s).take (it.pos - s) ∧
+      (∃ b, input[pos]? = some b ∧ b ≠ 32 ∧ b ≠ 9 ∧ b ≠ 13 ∧ b ≠ 10) ∧
+      ∀ j, s ≤ j → j < pos → input[j]? = some 32 ∨ input[j]? = some 9 ∨ input[j]? = some 13 ∨ input[j]? = some 10 := by
+  obtain ⟨is', hl', ⟨e, hlast, hend⟩, _, _, _⟩ := lex_items input false
+  rw [hl] at hl'
+  simp only [Lex.LexResult.items.injEq] at hl'
+  subst hl'
+  have hd : it ∈ is.dropLast := by
+    obtain ⟨ys, hys⟩ := List.getLast?_eq_some_iff.mp hlast
+    rw [hys] at hm ⊢
+    simp only [List.dropLast_concat]
+    rcases List.mem_append.mp hm with h | h
+    · exact h
+    · simp only [List.mem_singleton] at h
+      rw [← h, htx] at hend
+      rcases hend with h | h <;> exact absurd h (by decide)
+  obtain ⟨hlen, hb, hs⟩ := lex_items_slice input false is hl it hd
+  have hget : ∀ j (hj : j < it.val.length), input[it.pos - it.val.length + j]? = some it.val[j] := by
+    intro j hj
+    have h1 : it.val[j]? = ((input.drop (it.pos - it.val.length)).take it.val.length)[j]? :=
+      congrArg (·[j]?) hs
+    rw [List.getElem?_eq_getElem hj] at h1
+    rw [h1, List.getElem?_take, if_pos hj, List.getElem?_drop]
+  rcases hat with hp | ⟨_, hp⟩
+  · exact absurd hp hne
+  rcases Lemmas.ParserSafe.atTextStart_spec it with ⟨i, hi, he, hnb, hbl⟩ | ⟨he, _⟩
+  · have hpos : pos = it.pos - it.val.length + i := by rw [← hp, he]; omega
+    refine ⟨it.pos - it.val.length, by omega, by omega, hb, ?_, ⟨it.val[i], ?_, hnb⟩, ?_⟩
+    · rw [show it.pos - (it.pos - it.val.length) = it.val.length by omega]; exact hs
+    · rw [hpos]; exact hget i hi
+    · intro j h1 h2
+      have hj : j - (it.pos - it.val.length) < i := by omega
+      have := hget (j - (it.pos - it.val.length)) (by omega)
+      rw [show it.pos - it.val.length + (j - (it.pos - it.val.length)) = j by omega] at this
+      rw [this]
+      rcases hbl _ hj with h | h | h | h <;> simp [h]
+  · exact absurd (by rw [← hp, he]) hne
+
+/-- row 2: a rejected token is reported at its END; when no line break stands inside the token
+    (always, but for Text, comment, soydoc and string tokens) that is the line on which it BEGINS -/
+theorem token_line_begin (input : Bytes) (is : List Item) (it : Item)
+    (hl : Lex.lexAll input false = .items is) (hd : it ∈ is.dropLast) (hnl : ∀ b ∈ it.val, b ≠ 10) :
+    lineNumber input it.pos = lineNumber input (it.pos - it.val.length) := by
+  obtain ⟨hlen, _, hs⟩ := lex_items_slice input false is hl it hd
+  unfold lineNumber
+  have h1 : input.take it.pos = input.take (it.pos - it.val.length) ++ it.val := by
+    conv => rhs; rhs; rw [hs]
+    rw [← List.take_add]
+    congr 1; omega
+  rw [h1, List.filter_append, List.length_append]
+  have : it.val.filter (· == 10) = [] := by
+    rw [List.filter_eq_nil_iff]
+    intro b hb
+    simpa using hnl b hb
+  rw [this]; rfl
+
 /-- row 1: when the token is an Error item it is the lexer's last item, positioned by its class -/
 theorem parse_error_at_lex_error (input : Bytes) (is : List Item) (e : Item)
     (hl : Lex.lexAll input false = .items is) (hm : e ∈ is) (ht : e.typ = .tError) :
